@@ -148,7 +148,7 @@ Proof.
   intros R P i. unfold subin. destruct P as [|p P].
   - rewrite coef_nil. ring.
   - destruct R as [|r R].
-    + rewrite (coef_neg D OK), coef_nil. ring.
+    + rewrite coef_setdegree, (coef_neg D OK), coef_nil. ring.
     + rewrite coef_setdegree. apply (coef_sub D OK).
 Qed.
 Lemma coef_subin_range : forall R P i, coef (subin_range D R P) i = coef R i - coef P i.
